@@ -276,7 +276,7 @@ def configs(tier):
     #      has to be brought into the destination by the final copy)
     chain5 = dict(chain4, E=[1, 2, 0])
     for a, b, buf in ([('A', 'E', False)] if tier == 'quick' else [('A', 'E', False), ('E', 'A', False), ('A', 'E', True), ('E', 'A', True)]):
-        add(3, (2, 2), chain5, a, b, buf, 3)
+        add(3, (2, 2), chain5, a, b, buf, 2 if buf else 3)          # with a spare buffer: extents 2 only (the four-step items are the most expensive ones)
     return out
 
 
